@@ -221,7 +221,7 @@ func (Engine) Generate(r *simcore.RNG, tier string, idx int) *simcore.Plan {
 	}
 	for i := 0; i < n; i++ {
 		st := simcore.Step{}
-		switch r.Weighted([]int{5, 3, 8, 8, 5, 7, 6, 5, 16, 10, 4, 3, 3, 4, 7, 1, 2, 9, 2}) {
+		switch r.Weighted([]int{5, 3, 8, 8, 5, 7, 6, 5, 16, 10, 4, 3, 3, 4, 7, 1, 2, 9, 2, 3}) {
 		case 0:
 			st = createBal()
 		case 1:
@@ -290,6 +290,18 @@ func (Engine) Generate(r *simcore.RNG, tier string, idx int) *simcore.Plan {
 			// a pool from before exit fees were forced to zero: the stored record carries one
 			st.Op = "legacyfee"
 			st.A = []int64{r.Range(0, 63), int64(r.Intn(len(exitFees)))}
+		case 19:
+			// the scaling-factor controller (the creator) re-scales a stableswap pool; one in ten comes
+			// from somebody else and must be refused
+			st.Op = "adjsf"
+			st.A = []int64{r.Range(0, 9), r.Range(0, 63)}
+			for k := 0; k < 5; k++ {
+				sf := int64(r.Intn(len(scalingFactorSet)))
+				if r.Chance(0.3) {
+					sf = 0
+				}
+				st.A = append(st.A, sf)
+			}
 		}
 		if faults && r.Chance(0.18) {
 			switch st.Op {
@@ -318,6 +330,8 @@ type poolInfo struct {
 	stable bool
 	denoms []string            // sorted
 	don    map[string]*big.Int // tokens sent directly to the pool address
+	// controller is the account that may re-scale a stableswap pool (its creator)
+	controller int
 }
 
 type world struct {
@@ -719,6 +733,10 @@ type built struct {
 	donate *poolInfo
 	dcoin  sdk.Coin
 	note   string
+	// stableswap scaling factors
+	stabCreator int
+	adjsf       []uint64
+	refuse      bool
 }
 
 func (w *world) build(st simcore.Step) *built {
@@ -804,7 +822,27 @@ func (w *world) build(st simcore.Step) *built {
 		}
 		params := stableswap.PoolParams{SwapFee: osmomath.MustNewDecFromStr(spreadFactors[int(st.Arg(1))%len(spreadFactors)]), ExitFee: exit}
 		m := stableswap.NewMsgCreateStableswapPool(n.Accts[a], params, liq, sfs, "")
-		return &built{msg: &m, kind: "create", sender: a, create: true, note: fmt.Sprintf("n=%d", len(list))}
+		m.ScalingFactorController = n.Accts[a].String()
+		return &built{msg: &m, kind: "create", sender: a, create: true, stabCreator: a, note: fmt.Sprintf("n=%d", len(list))}
+	case "adjsf":
+		p := w.poolOfKind(st.Arg(1), true)
+		if p == nil {
+			return nil
+		}
+		a := p.controller
+		if st.Arg(0) == 9 {
+			a = (p.controller + 1) % w.accts // not the controller: must be refused
+		}
+		var sfs []uint64
+		for j := range p.denoms {
+			sfi := st.Arg(2 + j%5)
+			if sfi < 0 {
+				sfi = -sfi
+			}
+			sfs = append(sfs, scalingFactorSet[int(sfi)%len(scalingFactorSet)])
+		}
+		m := &stableswap.MsgStableSwapAdjustScalingFactors{Sender: n.Accts[a].String(), PoolID: p.id, ScalingFactors: sfs}
+		return &built{msg: m, kind: "adjsf", sender: a, pools: []uint64{p.id}, adjsf: sfs, refuse: a != p.controller, note: fmt.Sprintf("pool=%d sf=%v by=%d controller=%d", p.id, sfs, a, p.controller)}
 	case "joinall":
 		p := w.pool(st.Arg(1))
 		if p == nil {
@@ -1127,6 +1165,7 @@ func (w *world) deliver(i int, st simcore.Step, b *built) bool {
 			_, pi.stable = cp.(*stableswap.Pool)
 			pi.denoms = cp.GetTotalPoolLiquidity(n.Ctx).Denoms()
 			sort.Strings(pi.denoms)
+			pi.controller = b.stabCreator
 			w.pools = append(w.pools, pi)
 			b.pools = append(b.pools, id)
 			if len(pi.denoms) == 8 {
@@ -1135,6 +1174,9 @@ func (w *world) deliver(i int, st simcore.Step, b *built) bool {
 			if pi.stable {
 				run.Probe("stableswap-pool-created")
 			}
+		}
+		if b.adjsf != nil {
+			run.Probe("stableswap-rescaled")
 		}
 		if b.donate != nil {
 			cur := b.donate.don[b.dcoin.Denom]
